@@ -16,7 +16,8 @@ from . import common
 from . import integ_common as ic
 
 PROP = "C03"
-LEAN_MODULES = ["MiciVerif.Props.C03"]
+LEAN_MODULES = ["MiciVerif.Props.C03", "MiciVerif.Props.C06S", "MiciVerif.Props.C03S"]
+GENERATED = ["integ_steps"]   # tools/extractors/integ_steps.py -> Generated/IntegSteps.lean (step structure of every class)
 LEAN_EXTRA = ["MiciVerif.Model.Integrators", "MiciVerif.Lemmas.IntegratorsExec", "MiciVerif.Proto", "MiciVerif.Model.IntegratorsTangent"]
 
 
@@ -143,6 +144,14 @@ def _make_case(rng, ikind, skind, n):
 def direct_oracles(ctx):
     rng = common.rng_for(ctx, 3)
     ic.selfcheck(common.rng_for(ctx, 99), 3)
+    from . import c06
+
+    # a broken C06S / C03S obligation (generated step table != structure of the hand model): aim the search at the
+    # classes whose table changed
+    escalate, esc_kinds, esc_names = c06.broken_structure_tie(ctx)
+    if escalate:
+        ctx.count("search_escalated:" + ",".join(esc_kinds))
+        ctx.extra["structure_tie_broken"] = {"kinds": esc_kinds, "generated_definitions_differing": esc_names}
     plan = []
     for ikind in ic.INTEGRATOR_KINDS:
         for skind in ic.compatible_system_kinds(ikind):
@@ -152,6 +161,8 @@ def direct_oracles(ctx):
                 reps = ctx.n(5, 50) if skind in ic.RIEMANNIAN else ctx.n(2, 20)
             else:
                 reps = ctx.n(40, 400)
+            if escalate and ikind in esc_kinds:
+                reps *= 3
             for r in range(reps):
                 plan.append((ikind, skind, 1 if r % 4 else 3))
     for ikind, skind, n in plan:
@@ -181,6 +192,8 @@ def direct_oracles(ctx):
             if info.get("fd_refinements"):
                 ctx.count(f"fd_step_refined_x{info['fd_refinements']}")
         for sig, what in fails:
+            if escalate and ikind in esc_kinds:
+                what += c06.tie_note(ctx, esc_kinds, esc_names) + c06.tie_note(ctx, esc_kinds, esc_names, "C03S")
             ctx.violation(sig, what, case)
     for k, v in ic.STATS.items():
         ctx.count("lib:" + k, v)
@@ -231,7 +244,18 @@ LEVEL_TEXT = (
     "bundle for any number of inner steps (conLeapfrog_presymp_linear). Tie: the model's propagated Jacobian over Q (whose "
     'exact symplecticity D J D^T = J is additionally decided over Q for every Euclidean case) vs a five-point finite- '
     'difference Jacobian of the real Integrator.step on cubic/quartic targets, 4 metric types, Euclidean and Gaussian-split '
-    'systems. Direct oracle: finite-difference symplecticity residual and det J of the real step for all integrators incl. '
+    'systems. SOURCE TIE (re-decided on every run against Generated/IntegSteps.lean, which tools/extractors/integ_steps.py '
+    'regenerates from integrators.py): the translated SymmetricCompositionIntegrator constructor + _step carries a symplectic '
+    'matrix for every free list (C06S.symComp_generated_symplectic, with the C06S *_steps_eq_model / *_run_eq_model ties); for '
+    'the GENERATED step tables of ImplicitLeapfrogIntegrator / ImplicitMidpointIntegrator / ConstrainedLeapfrogIntegrator the '
+    'product, in the generated call order and with the generated time fractions, of the Jacobian factors that the generated helper '
+    'descriptors denote equals genLeapfrogJac / midpointJac / conLeapfrogJac (C03S.implicitLeapfrog_jac_eq_model, '
+    'implicitMidpoint_jac_eq_model, constrainedLeapfrog_jac_eq_model) and is symplectic resp. presymplectic on the tangent bundle '
+    '(C03S.implicitLeapfrog_generated_symplectic, implicitMidpoint_generated_symplectic, '
+    'constrainedLeapfrog_generated_presymp_linear), and RUNNING the generated implicit-leapfrog / implicit-midpoint tables on a '
+    'quadratic Hamiltonian with any exact fixed-point solver is multiplication by that product '
+    '(C03S.implicitLeapfrog_run_linear, implicitMidpoint_run_linear); when such an obligation is broken the oracle search is tripled for the '
+    'classes whose table changed. Direct oracle: finite-difference symplecticity residual and det J of the real step for all integrators incl. '
     'implicit ones on Riemannian systems and constrained leapfrog on curved manifolds (form restricted to T(T*M)).'
 )
 LEVEL_NOTE = (
@@ -239,6 +263,9 @@ LEVEL_NOTE = (
     'rule identifying the product of per-flow Jacobians with the Jacobian of the composed step for non-polynomial/non-linear '
     'targets (for linear systems proved: symComp_lift_exact; for polynomial targets tied numerically by the correspondence). '
     'PARTIAL: curved constraint manifolds and non-quadratic implicit steps are covered by the finite-difference oracle only '
-    '(tolerance 1e-6), not by a theorem. Symmetry of Hessians / metric is a hypothesis.'
+    '(tolerance 1e-6), not by a theorem. Symmetry of Hessians / metric is a hypothesis. Source tie: the translator plug-in '
+    'integ_steps.py and the Jacobian reading of its tables (definitions glJacRun / imJacRun / conJacRun in Props/C03S.lean; '
+    'unrecognised descriptors denote the zero matrix, fail closed) are trusted; for the constrained integrator the reading is '
+    'not tied to conRun by a theorem.'
 )
 TECHNIQUE = "Lean 4 theorems over Mathlib's symplectic group + exact propagated Jacobian vs finite-difference Jacobian of the real step + finite-difference symplecticity oracle"
